@@ -300,6 +300,12 @@ func (p *parent) runFamily(f *Family) *famStats {
 			n = uint64(k)
 		}
 	}
+	// machine-wide throttle (development aid, not present in a fresh checkout)
+	if b, err := os.ReadFile(filepath.Join(Root(), ".workers")); err == nil {
+		if k, err := strconv.Atoi(strings.TrimSpace(string(b))); err == nil && k > 0 && uint64(k) < n {
+			n = uint64(k)
+		}
+	}
 	if f.Serial || f.Size < 4 {
 		n = 1
 	}
